@@ -113,17 +113,115 @@ impl Spawner {
     }
 }
 
+/// Seconds of complete quiescence (every thread of the worker in interruptible
+/// sleep, not one CPU tick consumed) after which a worker that owes an answer
+/// is declared deadlocked. This is a state criterion, not a time budget: a
+/// busy or starved worker has runnable (R) or disk-wait (D) threads and keeps
+/// consuming ticks, however slow the machine is.
+const DEADLOCK_S: u64 = 12;
+static DEADLOCK_IS_VIOLATION: AtomicBool = AtomicBool::new(false);
+
+#[derive(Default)]
+struct DeadlockProbe {
+    last_ticks: u64,
+    quiet_since: Option<Instant>,
+    last_poll: Option<Instant>,
+}
+
+impl DeadlockProbe {
+    /// Returns true when the process has been quiescent for DEADLOCK_S.
+    fn poll(&mut self, pid: u32) -> bool {
+        if let Some(t) = self.last_poll {
+            if t.elapsed() < Duration::from_millis(1000) {
+                return false;
+            }
+        }
+        self.last_poll = Some(Instant::now());
+        match quiescent_ticks(pid) {
+            Some(t) if self.quiet_since.is_some() && t == self.last_ticks => self.quiet_since.unwrap().elapsed() >= Duration::from_secs(DEADLOCK_S),
+            Some(t) => {
+                self.last_ticks = t;
+                self.quiet_since = Some(Instant::now());
+                false
+            }
+            None => {
+                self.quiet_since = None;
+                false
+            }
+        }
+    }
+    fn reset(&mut self) {
+        self.quiet_since = None;
+    }
+}
+
+/// Total CPU ticks of the process if every live thread is in state S
+/// (interruptible sleep: futex, pipe, condvar), None otherwise.
+fn quiescent_ticks(pid: u32) -> Option<u64> {
+    let mut ticks = 0u64;
+    let mut n = 0;
+    for e in std::fs::read_dir(format!("/proc/{pid}/task")).ok()? {
+        let e = e.ok()?;
+        let st = std::fs::read_to_string(e.path().join("stat")).ok()?;
+        // pid (comm) state ... utime(14) stime(15)
+        let rest = &st[st.rfind(')')? + 1..];
+        let f: Vec<&str> = rest.split_whitespace().collect();
+        match *f.first()? {
+            "S" => {}
+            "Z" | "X" => continue,
+            _ => return None,
+        }
+        ticks += f.get(11)?.parse::<u64>().ok()? + f.get(12)?.parse::<u64>().ok()?;
+        n += 1;
+    }
+    if n == 0 {
+        None
+    } else {
+        Some(ticks)
+    }
+}
+
+/// Where the blocked threads of the library under test are (gdb, best effort).
+fn blocked_frames(pid: u32) -> String {
+    let out = Command::new("timeout").args(["40", "gdb", "-p", &pid.to_string(), "-batch", "-ex", "thread apply all bt 40"]).stdin(Stdio::null()).stderr(Stdio::null()).output();
+    let Ok(out) = out else { return String::new() };
+    let text = String::from_utf8_lossy(&out.stdout);
+    let mut frames: Vec<String> = vec![];
+    let mut seen_in_thread = false;
+    for l in text.lines() {
+        if l.starts_with("Thread ") {
+            seen_in_thread = false;
+        } else if !seen_in_thread {
+            if let Some(i) = l.find("sux::") {
+                let f = &l[i..];
+                let f = f.split(" (").next().unwrap_or(f);
+                let f = f.split("::h").next().unwrap_or(f);
+                let f: String = f.trim().chars().take(100).collect();
+                seen_in_thread = true;
+                if !frames.contains(&f) {
+                    frames.push(f);
+                }
+            }
+        }
+    }
+    frames.sort();
+    frames.truncate(4);
+    frames.join(" | ")
+}
+
 /// Registry of running workers for the watchdog.
 struct Watch {
     // slot -> (pid, start millis or 0)
     slots: Vec<(AtomicU64, AtomicU64)>,
-    killed: Vec<AtomicBool>,
+    // 0 = not killed, 1 = watchdog, 2 = deadlock
+    killed: Vec<AtomicU64>,
+    frames: Vec<Mutex<String>>,
     t0: Instant,
 }
 
 impl Watch {
     fn new(n: usize) -> Watch {
-        Watch { slots: (0..n).map(|_| (AtomicU64::new(0), AtomicU64::new(0))).collect(), killed: (0..n).map(|_| AtomicBool::new(false)).collect(), t0: Instant::now() }
+        Watch { slots: (0..n).map(|_| (AtomicU64::new(0), AtomicU64::new(0))).collect(), killed: (0..n).map(|_| AtomicU64::new(0)).collect(), frames: (0..n).map(|_| Mutex::new(String::new())).collect(), t0: Instant::now() }
     }
     fn now(&self) -> u64 {
         self.t0.elapsed().as_millis() as u64 + 1
@@ -135,19 +233,41 @@ impl Watch {
     fn end(&self, slot: usize) {
         self.slots[slot].1.store(0, Ordering::SeqCst);
     }
-    fn was_killed(&self, slot: usize) -> bool {
-        self.killed[slot].swap(false, Ordering::SeqCst)
+    fn was_killed(&self, slot: usize) -> Kill {
+        match self.killed[slot].swap(0, Ordering::SeqCst) {
+            0 => Kill::No,
+            1 => Kill::Watchdog,
+            _ => Kill::Deadlock(std::mem::take(&mut *self.frames[slot].lock().unwrap())),
+        }
     }
     fn monitor(self: Arc<Self>, limit_s: u64, stop: Arc<AtomicBool>) {
+        let mut probes: Vec<(u64, DeadlockProbe)> = (0..self.slots.len()).map(|_| (0, DeadlockProbe::default())).collect();
         while !stop.load(Ordering::SeqCst) {
             std::thread::sleep(Duration::from_millis(250));
             let now = self.now();
             for (i, (pid, st)) in self.slots.iter().enumerate() {
                 let s = st.load(Ordering::SeqCst);
-                if s != 0 && now.saturating_sub(s) > limit_s * 1000 {
-                    let p = pid.load(Ordering::SeqCst);
+                let p = pid.load(Ordering::SeqCst);
+                if s == 0 || p == 0 {
+                    probes[i].1.reset();
+                    continue;
+                }
+                if probes[i].0 != s {
+                    // a new case started
+                    probes[i] = (s, DeadlockProbe::default());
+                }
+                if probes[i].1.poll(p as u32) {
+                    *self.frames[i].lock().unwrap() = blocked_frames(p as u32);
+                    self.killed[i].store(2, Ordering::SeqCst);
+                    unsafe {
+                        libc::kill(p as i32, libc::SIGKILL);
+                    }
+                    st.store(0, Ordering::SeqCst);
+                    continue;
+                }
+                if now.saturating_sub(s) > limit_s * 1000 {
                     if p != 0 {
-                        self.killed[i].store(true, Ordering::SeqCst);
+                        self.killed[i].store(1, Ordering::SeqCst);
                         unsafe {
                             libc::kill(p as i32, libc::SIGKILL);
                         }
@@ -191,18 +311,37 @@ fn parse_f(line: &str, o: &mut Outcome) {
     o.msg = it.next().unwrap_or("").to_string();
 }
 
+/// Why the parent killed a worker.
+enum Kill {
+    No,
+    Watchdog,
+    Deadlock(String),
+}
+
 /// Build the outcome for a dead worker from its exit status and stderr.
-fn death_outcome(p: &mut Proc, killed_by_watchdog: bool, desc: Option<String>) -> Outcome {
+fn death_outcome(p: &mut Proc, kill: Kill, desc: Option<String>) -> Outcome {
     let status = p.child.wait().ok();
     // give the stderr thread a moment to drain
     std::thread::sleep(Duration::from_millis(30));
     let tail: Vec<String> = p.stderr_tail.lock().unwrap().iter().cloned().collect();
     let mut o = Outcome::blank();
     o.description = desc;
-    if killed_by_watchdog {
-        o.inconclusive = Some("watchdog".into());
-        o.class = "timeout".into();
-        return o;
+    match kill {
+        Kill::No => {}
+        Kill::Watchdog => {
+            o.inconclusive = Some("watchdog".into());
+            o.class = "timeout".into();
+            return o;
+        }
+        Kill::Deadlock(frames) => {
+            o.class = "deadlock".into();
+            o.sig = format!("deadlock@{}", frames.split(" | ").next().unwrap_or(""));
+            o.msg = format!("the call never returned: every thread of the worker was blocked (state S) and the process consumed no CPU tick for {DEADLOCK_S} s; blocked in [{frames}]");
+            if !DEADLOCK_IS_VIOLATION.load(Ordering::SeqCst) {
+                o.inconclusive = Some(format!("deadlock (not a subject of this property): {}", o.msg));
+            }
+            return o;
+        }
     }
     let joined = tail.join("\n");
     if joined.contains("memory allocation of") || joined.contains("out of memory") || joined.contains("allocator is out of memory") || joined.contains("failed to allocate") {
@@ -278,15 +417,26 @@ fn run_case(sp: &Spawner, strict: bool, proc_: &mut Option<Proc>, data: &[u8], d
     // watchdog for single cases: a helper thread that kills the child
     let pid = p.child.id();
     let done = Arc::new(AtomicBool::new(false));
-    let killed = Arc::new(AtomicBool::new(false));
+    let killed = Arc::new(AtomicU64::new(0));
+    let frames = Arc::new(Mutex::new(String::new()));
     {
         let done = done.clone();
         let killed = killed.clone();
+        let frames = frames.clone();
         std::thread::spawn(move || {
             let t = Instant::now();
+            let mut probe = DeadlockProbe::default();
             while !done.load(Ordering::SeqCst) {
+                if probe.poll(pid) && !done.load(Ordering::SeqCst) {
+                    *frames.lock().unwrap() = blocked_frames(pid);
+                    killed.store(2, Ordering::SeqCst);
+                    unsafe {
+                        libc::kill(pid as i32, libc::SIGKILL);
+                    }
+                    return;
+                }
                 if t.elapsed() > Duration::from_secs(limit_s) {
-                    killed.store(true, Ordering::SeqCst);
+                    killed.store(1, Ordering::SeqCst);
                     unsafe {
                         libc::kill(pid as i32, libc::SIGKILL);
                     }
@@ -321,7 +471,12 @@ fn run_case(sp: &Spawner, strict: bool, proc_: &mut Option<Proc>, data: &[u8], d
     done.store(true, Ordering::SeqCst);
     if !finished {
         let mut dead = proc_.take().unwrap();
-        return death_outcome(&mut dead, killed.load(Ordering::SeqCst), desc);
+        let kill = match killed.load(Ordering::SeqCst) {
+            0 => Kill::No,
+            1 => Kill::Watchdog,
+            _ => Kill::Deadlock(std::mem::take(&mut *frames.lock().unwrap())),
+        };
+        return death_outcome(&mut dead, kill, desc);
     }
     o.description = desc;
     o
@@ -440,7 +595,7 @@ fn gen_thread(slot: usize, sp: Spawner, plan: Arc<Vec<Segment>>, queue: Arc<Mute
             if p.stdin.write_all(cmd.as_bytes()).and_then(|_| p.stdin.flush()).is_err() {
                 // worker gone before we could talk to it
                 let mut dead = proc_.take().unwrap();
-                let o = death_outcome(&mut dead, false, None);
+                let o = death_outcome(&mut dead, Kill::No, None);
                 let data = case_bytes(seed, &prop_id, seg, &plan[seg], a);
                 agg.record(&o, seg, &plan[seg], a, &data);
                 a += 1;
@@ -517,7 +672,7 @@ fn gen_thread(slot: usize, sp: Spawner, plan: Arc<Vec<Segment>>, queue: Arc<Mute
 /// Byte-level shrinking: a candidate is accepted only if it fails with the
 /// same class and signature.
 fn shrink(sp: &Spawner, start: &[u8], class: &str, sig: &str, limit_s: u64) -> (Vec<u8>, u64) {
-    let budget: u64 = if class == "abort" { 300 } else { 1500 };
+    let budget: u64 = if class == "deadlock" { 10 } else if class == "abort" { 300 } else { 1500 };
     let deadline = Instant::now() + Duration::from_secs(150);
     let mut best = start.to_vec();
     let mut tried = 0u64;
@@ -641,6 +796,7 @@ pub fn parent_main(prop: &dyn Property, args: ParentArgs) -> i32 {
     let t0 = Instant::now();
     let id = prop.id().to_string();
     let limit_s = prop.watchdog_s();
+    DEADLOCK_IS_VIOLATION.store(prop.deadlock_is_violation(), Ordering::SeqCst);
 
     // known findings: ids of all open entries (predicates may be shared
     // between properties); entries of this property are re-checked below
